@@ -15,12 +15,20 @@ SEEDED = os.path.join(VERIF, 'seeded')
 def main():
     table_only = '--table-only' in sys.argv
     ids = [a for a in sys.argv[1:] if not a.startswith('--')] or sorted(d for d in os.listdir(SEEDED) if os.path.isdir(os.path.join(SEEDED, d)))
-    for sid in ([] if table_only else ids):
+    from concurrent.futures import ThreadPoolExecutor
+
+    def one(sid):
         d = os.path.join(SEEDED, sid)
         pid = sid.split('-')[0]
         p = subprocess.run(['python3-vt', os.path.join(VERIF, 'harness', 'seedtest.py'), d, pid], stdout=subprocess.PIPE,
                            stderr=subprocess.STDOUT, text=True, cwd=VERIF)
-        out = json.loads(p.stdout.strip().split('\n')[-1])
+        return sid, json.loads(p.stdout.strip().split('\n')[-1])
+    jobs = int(os.environ.get('SEEDALL_JOBS', '6'))
+    with ThreadPoolExecutor(max_workers=jobs) as ex:
+        results = list(ex.map(one, [] if table_only else ids))
+    for sid, out in results:
+        d = os.path.join(SEEDED, sid)
+        pid = sid.split('-')[0]
         am = json.load(open(os.path.join(d, 'agent_meta.json'))) if os.path.exists(os.path.join(d, 'agent_meta.json')) else {}
         chk = out['checks'].get(pid, {})
         meta = {
